@@ -11,7 +11,7 @@ from rv.harness import monitored_call, present, plain, snapshot_arg
 
 LEVEL = "exploration"
 RULE = ("histories of 30-120 calls mixing 11 partitioners, 5 packers, 3 coverers, 7 presentations, 10 output types, failing calls (oversize items, invalid cbldm arguments, infeasible ILP constraints) and "
-        "valueof failpoints (the value function raises at its n-th call); value vectors, name sets and sizes come from a pool of 6 so that successive calls collide on names with different values; "
+        "valueof failpoints (the value function raises at its n-th call, n from 1 to 3000, so that searches are aborted in mid-tree), each failing call followed (60%) by a battery of 5 probe calls to the search algorithms; value vectors, name sets and sizes come from a pool of 6 so that successive calls collide on names with different values; "
         "evaluations = calls compared; non-trivial = calls sitting in a history that already contains >= 1 failing call and >= 5 distinct algorithms; distinct on (call, position-independent)")
 ASSUMPTIONS = ["the fresh-state reference is a fork of a process that has only imported prtpy (and mip)", "a module-state digest change is recorded, not alarmed (a future cache would be legitimate)"]
 FLOORS = {"quick": {"distinct_nontrivial": 400, "fresh_references": 800, "repeat_pairs": 200}, "thorough": {"distinct_nontrivial": 2000, "fresh_references": 4000, "repeat_pairs": 1000}}
@@ -139,20 +139,28 @@ def module_state_digest():
 # ------------------------------------------------------------------ histories
 def make_pool(rng):
     pool = []
-    for _ in range(6):
-        n = rng.choice([4, 5, 5, 6, 6, 7])
-        cls = rng.choice(["small", "ties", "zeros", "equal"])
+    for j in range(6):
+        # three short vectors (every algorithm) and three longer ones (so that the search algorithms really search)
+        n = rng.choice([4, 5, 5, 6, 6, 7]) if j < 3 else rng.choice([8, 9, 9, 10])
+        cls = rng.choice(["small", "ties", "zeros", "equal"]) if j < 3 else rng.choice(["small", "small", "ties"])
         pool.append(gen.part_values(rng, cls, n, 3))
     return pool
 
 
-def draw_call(rng, pool):
+SEARCHERS = ("snp", "rnp", "ckk", "cg", "dp", "cbldm")
+
+
+def draw_call(rng, pool, force_alg=None):
     vals = list(rng.choice(pool))
-    which = rng.randrange(19)
+    which = rng.randrange(19) if force_alg is None else C.ALL_PART.index(force_alg)
+    if force_alg is None and rng.random() < 0.4:
+        which = C.ALL_PART.index(rng.choice(SEARCHERS))      # the stateful-looking algorithms get 40% of the calls
+    if force_alg is not None:
+        vals = list(max(pool, key=len))          # probe calls use the longest vector of the pool: the searches have something to do
     case = {"values": vals, "pres": rng.choice(C.PRESENTATIONS), "pres_seed": rng.choice([1, 2]), "ot": rng.choice(OTS)}
     if which < 11:
         alg = C.ALL_PART[which]
-        k = 2 if alg == "cbldm" else rng.choice([1, 2, 3, 3, 4])
+        k = 2 if alg == "cbldm" else (rng.choice([1, 2, 3, 3, 4]) if force_alg is None else rng.choice([3, 4, 5]))
         case.update(kind="partition", alg=alg, k=k)
         if alg in ("cg", "dp", "ilp"):
             name = rng.choice(C.OBJ5)
@@ -165,6 +173,10 @@ def draw_call(rng, pool):
             case["cbldm_d"] = rng.choice([None, 1, 2])
         if alg == "ilp":
             case["values"] = [min(v, 200) for v in vals]
+        if alg in ("dp", "ilp"):
+            case["values"] = case["values"][:7]               # cost envelope
+        if len(case["values"]) >= 9 and alg in ("snp", "rnp", "ckk") and case["k"] >= 5:
+            case["k"] = 4
         x = rng.random()
         if x < 0.08:
             if alg == "cbldm":
@@ -178,8 +190,10 @@ def draw_call(rng, pool):
             case["C"] = max(1, max(vals) - 1); case["expect_fail"] = True     # some item is oversize
     else:
         case.update(kind="cover", alg=C.COVERERS[which - 16], C=max(1, sum(vals) // rng.choice([2, 3, 4])), values=[max(1, v) for v in vals])
-    if rng.random() < 0.07:
-        case["fail_valueof_at"] = rng.randint(1, 3 * len(vals)); case["expect_fail"] = True
+    fp_rate = 0.07 if case.get("alg") not in SEARCHERS else 0.15
+    if force_alg is None and rng.random() < fp_rate:
+        # the value function raises at its n-th call: small n aborts the set-up, large n aborts a search algorithm somewhere in the middle of its tree
+        case["fail_valueof_at"] = rng.choice([rng.randint(1, 3 * len(vals)), rng.randint(10, 200), rng.randint(200, 3000)]); case["expect_fail"] = True
     return case
 
 
@@ -190,8 +204,10 @@ def comparable(res):
 def run_history(rng, pool, zy, ctx, length):
     algs_seen, failing_seen = set(), 0
     digest = module_state_digest()
+    probes = []
     for pos in range(length):
-        case = draw_call(rng, pool)
+        # after a failing call, a battery of probe calls to the search algorithms follows (state left behind by an aborted search shows in the next searches)
+        case = draw_call(rng, pool, force_alg=probes.pop()) if probes else draw_call(rng, pool)
         ctx.evaluated()
         res = exec_call(case)
         d2 = module_state_digest()
@@ -212,6 +228,13 @@ def run_history(rng, pool, zy, ctx, length):
             if not res2.get("timeout") and comparable(res2) != comparable(res):
                 ctx.violation("repeated_call_differs", alg, case, dict(w, first=res, second=res2))
                 continue
+        if case["alg"] not in SEARCHERS and rng.random() < 0.5:
+            # the fresh-state reference costs a fork: always taken for the search algorithms, for half of the simple heuristics
+            ctx.held(cls=f"{case['kind']}/{alg}/no_reference")
+            algs_seen.add(alg)
+            if not res.get("ok"):
+                failing_seen += 1
+            continue
         ref = zy.fresh(case)
         ctx.counters["fresh_references"] += 1
         if ref.get("harness_error"):
@@ -231,6 +254,9 @@ def run_history(rng, pool, zy, ctx, length):
         if not res.get("ok"):
             failing_seen += 1
             ctx.counters["failing_calls"] += 1
+            if not probes and rng.random() < 0.6:
+                probes = [rng.choice(["snp", "snp", "rnp", "ckk", "cg"]) for _ in range(5)]
+                ctx.counters["probe_batteries_after_failure"] += 1
             if res.get("exc") == "Failpoint":
                 ctx.counters["valueof_failpoints_fired"] += 1
 
